@@ -238,3 +238,88 @@ def c05():
     log("C05: %d cases, %d evaluations, %d disagreements (%d known-finding cases), %d violations" % (
         n, total_stats.get("evaluations", 0), len(all_mms), sum(known_hits.values()), violations))
     return 1 if violations else 2 if unrep else 0
+
+
+def simple_cases_check(prop, tla, cfgs, subcmd, rule, model_text, key_of, assumptions, not_modelled=None, chunks=8, workers=4,
+                       known=None, attribute=None, level="model_checking", extra_cov=None, extra_violations=0, extra_unrep=0):
+    """export -> replay -> confirm -> evidence for checks with one harness subcommand."""
+    tier, seed = tier_seed()
+    t0 = time.time()
+    gh = build_harness()
+    with cf.ThreadPoolExecutor(max_workers=4) as ex:
+        futs = [ex.submit(export_cases, i, tla, c, "CASE ", workers) for i, c in enumerate(cfgs)]
+        exports = [f.result() for f in futs]
+    total_stats, all_mms, samples = {}, [], []
+    for e in exports:
+        stats, mms, lines = replay_all(gh, subcmd, e, chunks=chunks)
+        for k, v in stats.items():
+            if isinstance(v, int):
+                total_stats[k] = total_stats.get(k, 0) + v
+            elif isinstance(v, dict):
+                t = total_stats.setdefault(k, {})
+                for kk, vv in v.items():
+                    t[kk] = t.get(kk, 0) + vv
+        all_mms += mms
+        samples.append(json.loads(lines[(seed * 7919) % len(lines)]))
+    violations, unrep, known_hits = report(prop, tier, seed, gh, subcmd, all_mms, key_of=key_of, case_of=lambda m: m["line"],
+                                           known=known, attribute=attribute)
+    n = sum(e["n"] for e in exports)
+    evals = sum(v for k, v in total_stats.items() if isinstance(v, int) and k not in ("cases", "disagreements"))
+    cov = {"states": sum(e["distinct"] for e in exports), "transitions": sum(e["generated"] for e in exports),
+           "traces_validated_against_impl": n, "evaluations": max(evals, n), "distinct_nontrivial": n, "model": model_text, "rule": rule,
+           "exhaustive": True, "samples": samples, "disagreements": len(all_mms), "known_finding_cases": known_hits, "replay": total_stats}
+    if not_modelled:
+        cov["not_modelled"] = not_modelled
+    if extra_cov:
+        for k, v in extra_cov.items():
+            if k in ("states", "transitions", "traces_validated_against_impl", "evaluations", "distinct_nontrivial") and isinstance(v, int):
+                cov[k] += v
+            elif k == "samples":
+                cov["samples"] += v[:1]
+            else:
+                cov[k] = v
+    violations += extra_violations
+    unrep += extra_unrep
+    write_evidence(prop, tier, seed, level, cov, assumptions, violations, time.time() - t0)
+    log("%s: %d cases replayed (%s), %d disagreements, %d violations" % (prop, n, total_stats, len(all_mms), violations))
+    return 1 if violations else 2 if unrep else 0
+
+
+def c07():
+    return simple_cases_check(
+        "C07", "GrlSiblings.tla", ["MCSiblings.cfg"], "sib-replay",
+        rule="case = pair of near-identical sibling rules (one constant digit beyond the 6th decimal / sign / exponent / int vs float / string "
+             "characters incl. quotes, brackets and the engine's node-signature syntax / one operator / one negation / operand order / selector / "
+             "argument) with 3-4 fact states; each rule is built alone, the pair in both orders, in two resources in both orders, and among other "
+             "rules (7 knowledge bases per case); in each, FetchMatchingRules membership and the value stored by Execute must equal what the model "
+             "computes for the rule alone. Every case is a distinct TLC state and distinguishes its two siblings (invariant Distinguishable).",
+        model_text="GrlSiblings.tla / MCSiblings.cfg: all sibling families, invariant Distinguishable",
+        key_of=lambda m: (m["fam"], m["config"], m["what"].split()[0]),
+        assumptions=["TLC and the Json module", "the harness's term printer and typed sink methods", "decimal constants are exact in the model; the "
+                     "harness maps them to the nearest float64 (monotone, distinct for all constants used)"])
+
+
+def c04():
+    import engine_family
+    # multi-cycle view: generated rule sets whose actions write through every path shape (incl. re-pointing F.P), the monitor
+    # compares the whole fact after every firing (flags C04-facts-at-cycle / C04-final-facts)
+    eng = engine_family.evaluate("C04", [("core", 400, ["-variants", "fresh,second,multi"]), ("memo", 150, [])], ["C01", "C02", "C03"],
+                                 "a run in which some rule fired and the fact snapshot of the next cycle was compared with RunActions")
+    ec = eng["cov"]
+    extra = {"states": ec["states"], "transitions": ec["transitions"], "traces_validated_against_impl": ec["traces_validated_against_impl"],
+             "evaluations": ec["evaluations"], "engine_traces": {k: ec[k] for k in ("traces_validated_against_impl", "trace_events", "batches", "model")},
+             "samples": ec["samples"]}
+    return simple_cases_check(
+        "C04", "GrlAssign.tla", ["MCAssign.cfg"], "asg-replay",
+        rule="case = action list of one assignment (every location of the store x 5 forms x constants / reads of locations of other kinds / "
+             "arithmetic over them) or of two assignments where the second right-hand side reads the first target; locations: struct fields of every "
+             "integer / unsigned / float width, string, bool, fields behind a pointer, *int64 / *float64 fields, slice elements, map entries, JSON "
+             "members (nested, array element), top-level context variables. After Execute the WHOLE fact (40 locations) is compared with the "
+             "expected store, so wrong targets and clobbered neighbours show; a kind the map refuses must yield an error with the earlier effects kept.",
+        model_text="GrlAssign.tla / MCAssign.cfg: all single assignments and read-after-write pairs, invariant Frame",
+        key_of=lambda m: (m["fam"], m["what"].split()[0], m["line"]["acts"][-1]["t"].split("[")[0], m["line"]["acts"][-1]["form"]),
+        assumptions=["TLC and the Json module", "the harness's location table (initial values equal the model's Store0, checked implicitly on every "
+                     "untouched location of every case)", "values are small and dyadic: no overflow, float32/float64 exact; values outside the "
+                     "destination's range, string+real renderings and reads of *number fields as plain right-hand sides are outside the family"],
+        not_modelled=["time.Time destinations"], chunks=8, workers=8, extra_cov=extra, extra_violations=eng["violations"],
+        extra_unrep=eng["unreproduced"])
